@@ -105,7 +105,7 @@ common::register! {
     t_sr_31 = sr::<_, 31, 1028> => 33,
     t_sr_32 = sr::<_, 32, 1052> => 34,
     t_rr_3 = rr::<_, 3, 336> => 5,
-    t_rr_31 = rr::<_, 31, 1008> => 33,
+    q_rr_31 = rr::<_, 31, 1008> => 33,
     t_rr_32 = rr::<_, 32, 1032> => 34,
 }
 
